@@ -11,11 +11,12 @@
 // proportional to exp(-epsilon * |x - n|) on 0..2n; the trial probability itself (libm `powf`) and
 // the independence of the trials are NOT decided here.
 // Environment: the RNG is a script — the first K trials have ARBITRARY outcomes (symbolic bits),
-// every later trial succeeds (bound: at most K = 6 adversarial trials per call).
+// every later trial succeeds (bound: at most K adversarial trials per call; K = 6 quick, 8 thorough).
 use super::*;
 use crate::verif_kani::common::*;
 
-const K: u32 = 6;
+/// number of adversarial trials: 6 in the quick harnesses, 8 in the thorough ones (set first thing)
+static mut K: u32 = 6;
 
 pub(crate) struct Script {
     bits: u8,
@@ -24,7 +25,7 @@ pub(crate) struct Script {
 
 impl Script {
     fn success(bits: u8, k: u32) -> bool {
-        k >= K || (bits >> k) & 1 == 1
+        k >= unsafe { K } || (bits >> k) & 1 == 1
     }
 }
 
@@ -119,6 +120,16 @@ fn truncated_support(shift: u32) {
 harness! {
     #[kani::unwind(9)]
     fn q12_truncated_sampler_support() {
+        let shift: u32 = kani::any();
+        kani::assume(shift >= 1 && shift <= 1_000_000);
+        truncated_support(shift);
+    }
+}
+
+harness! {
+    #[kani::unwind(11)]
+    fn t12_truncated_sampler_support_8_trials() {
+        unsafe { K = 8 };
         let shift: u32 = kani::any();
         kani::assume(shift >= 1 && shift <= 1_000_000);
         truncated_support(shift);
